@@ -898,7 +898,7 @@ func (b *backend) heartbeatOld(c Case, k int) {
 	}
 	after := time.Now()
 	bc.cl.Drain()
-	if x.latest.open && after.Before(x.refLo.Add(c.ttl()-guard)) {
+	if x.latest.open && beforeBoth(after, x.refLo.Add(c.ttl()-guard)) {
 		b.lateOldHB = true // the newest connection is provably alive: the answer must not move
 	} else {
 		x.contested = true
@@ -993,8 +993,8 @@ func (b *backend) judge(c Case, step string) *failure {
 				}
 				b.gone++
 			case x.latest.open && !x.contested:
-				fresh := la.Before(x.refLo.Add(ttl - guard))
-				stale := lb.After(x.refHi.Add(ttl + guard))
+				fresh := beforeBoth(la, x.refLo.Add(ttl-guard))
+				stale := afterBoth(lb, x.refHi.Add(ttl+guard))
 				want := x.latest
 				wantNode := b.nodes[want.node].NodeID
 				if err != nil {
